@@ -85,6 +85,7 @@ type Enc struct {
 	topParams  []ceParam
 	topFrame   *Frame
 	nq         int
+	StaleLoops []int // loop ordinals named by the contract that the function does not have
 	NoInv      bool // fallback encoding: every loop invariant, decreases clause and loop-head lemma of the top function is dropped
 }
 
@@ -533,6 +534,16 @@ func (f *Frame) analyse() []*ssa.BasicBlock {
 	for i, h := range hdrs {
 		f.loops[h].ordinal = i + 1
 		f.loopList = append(f.loopList, f.loops[h])
+	}
+	if f.isTop && f.C != nil {
+		// a clause for a loop the function does not have would silently check nothing
+		for _, m := range []map[int][]*Clause{f.C.LoopInv, f.C.LoopDec, f.C.LoopApply, f.C.LoopMod} {
+			for ord := range m {
+				if ord < 1 || ord > len(hdrs) {
+					f.E.StaleLoops = append(f.E.StaleLoops, ord)
+				}
+			}
+		}
 	}
 	// topological order ignoring back edges (reverse postorder)
 	var order []*ssa.BasicBlock
